@@ -129,7 +129,7 @@ func c20(tier string) []*explore.Scenario {
 		out = append(out, c20Overlap(n, "Bidi"), c20Overlap(n, "Unary"))
 	}
 	for _, end := range []string{"stop", "read-fails", "write-fails"} {
-		out = append(out, c20ConnEndsInFlight(end, 1))
+		out = append(out, c20ConnEndsInFlight(end, 1), c20ConnEndsInFlightN(end, 8, 0), c20ConnEndsInFlightN(end, 11, 0))
 	}
 	for _, ic := range []string{"retry", "fallback", "own-context", "retry-stream"} {
 		out = append(out, c20ClientInterceptorStats(ic))
@@ -658,9 +658,19 @@ func c20ClientInterceptorStats(what string) *explore.Scenario {
 // handler still sees, for each of the two RPCs, exactly one Begin and exactly
 // one End, and the End carries an error.
 func c20ConnEndsInFlight(end string, bound int) *explore.Scenario {
+	return c20ConnEndsInFlightN(end, 0, bound)
+}
+
+// extra > 0: that many further unary calls are in flight (more than the 8 workers of the unary
+// pool: some requests are still waiting for a worker when the connection ends).
+func c20ConnEndsInFlightN(end string, extra, bound int) *explore.Scenario {
 	fam := "C20/stats"
+	name := "C20/stats/connection-ends-in-flight/" + end
+	if extra > 0 {
+		name += fmt.Sprintf("/unary=%d", extra+1)
+	}
 	return &explore.Scenario{
-		Name: "C20/stats/connection-ends-in-flight/" + end, Family: fam, Prop: "C20", Bound: bound, Horizon: time.Hour,
+		Name: name, Family: fam, Prop: "C20", Bound: bound, Horizon: time.Hour,
 		Run: func() {
 			ssh := []*c20SH{newC20SH("s0"), newC20SH("s1")}
 			w := env.NewWorld()
@@ -680,6 +690,21 @@ func c20ConnEndsInFlight(end string, bound int) *explore.Scenario {
 				return status.FromContextError(ss.Context().Err()).Err()
 			}
 			vsched.GoNamed("caller-u", func() { w.CallUnary(d.CC, context.Background(), ru, "x") })
+			if extra > 0 && end != "stop" {
+				// with the pool exhausted the read loop is parked handing over the 9th request: the server
+				// cannot notice that the transport went away before a worker is free again, so these
+				// handlers do not wait for their context (only for the gate)
+				w.Unaries["u"] = func(r *env.Rec, ctx context.Context, in string) (string, error) {
+					<-slow
+					return "late", nil
+				}
+			}
+			for i := 0; i < extra; i++ {
+				tag := fmt.Sprintf("u%d", i+1)
+				rx := w.Rec(tag, "Unary")
+				w.Unaries[tag] = w.Unaries["u"]
+				vsched.GoNamed("caller-"+tag, func() { w.CallUnary(d.CC, context.Background(), rx, "x") })
+			}
 			vsched.GoNamed("caller-s", func() {
 				if cs := w.Open(d.CC, context.Background(), rs); cs != nil {
 					env.CSend(rs, cs, "m")
@@ -727,7 +752,8 @@ func c20ConnEndsInFlight(end string, bound int) *explore.Scenario {
 					}
 					if begins != 1 || ends != 1 {
 						vsched.Fail(fam+"|end-count", "the connection ended (%s) with RPC %s in flight: server stats handler %s saw %d Begin and %d End: %v", end, sh.methods[tag], sh.name, begins, ends, ev)
-					} else if !endErr && (sh.methods[tag] != env.MUnary || end != "write-fails") {
+					} else if !endErr && (sh.methods[tag] != env.MUnary || (end != "write-fails" && !(extra > 0 && end != "stop"))) {
+						// (the gated unary handlers of the pool-exhausted variants return success: End without error is their true outcome)
 						vsched.Fail(fam+"|end-error", "the connection ended (%s) with RPC %s in flight: server stats handler %s saw End without an error: %v", end, sh.methods[tag], sh.name, ev)
 					}
 				}
